@@ -123,6 +123,8 @@ impl Gen {
                 targs: vec![
                     TArg { ty: Ty::Int, name: "p".into(), default: None },
                     TArg { ty: Ty::Int, name: "q".into(), default: Some(default) },
+                    // named like the iterator of an enclosing foreach: inside the class the argument wins
+                    TArg { ty: Ty::Int, name: "u".into(), default: Some(int(0)) },
                 ],
                 parents: vec![CRef::with("Base", vec![parent_arg])],
                 body: Some(body),
@@ -134,6 +136,12 @@ impl Gen {
             body.push(BI::Field { doc: vec![], blank: false, ty: Ty::Int, name: self.fresh(), init: Some(self.probe(n)) });
         }
         body.push(BI::Let { name: "g".into(), value: self.probe("u") });
+        // fields named like a variable of an enclosing block and like the iterator of an enclosing
+        // foreach: after their declaration the fields win inside the record
+        body.push(BI::Field { doc: vec![], blank: false, ty: Ty::Int, name: "w".into(), init: Some(int(4)) });
+        body.push(BI::Field { doc: vec![], blank: false, ty: Ty::Int, name: self.fresh(), init: Some(self.probe("w")) });
+        body.push(BI::Field { doc: vec![], blank: false, ty: Ty::Int, name: "u".into(), init: Some(int(6)) });
+        body.push(BI::Field { doc: vec![], blank: false, ty: Ty::Int, name: self.fresh(), init: Some(self.probe("u")) });
         let def_arg = self.probe("u");
         let defm_arg = self.probe("u");
         out.push(Item::Def {
@@ -191,7 +199,14 @@ impl Gen {
                     Ctor::IfThen => Item::If { cond: E::Bool(true), then: inner, then_braces: true, els: None },
                     Ctor::IfElse => Item::If { cond: E::Bool(false), then: vec![], then_braces: true, els: Some(inner) },
                     Ctor::Defset => Item::Defset { ty: Ty::List(Box::new(Ty::Class("Base".into()))), name: "s".into(), body: inner },
-                    Ctor::MulticlassT => Item::Multiclass { doc: vec![], name: format!("M{depth}"), targs: vec![TArg { ty: Ty::Int, name: "p".into(), default: None }], parents: vec![], body: inner },
+                    Ctor::MulticlassT => Item::Multiclass {
+                        doc: vec![],
+                        name: format!("M{depth}"),
+                        // `q` is also a global variable: inside the multiclass the argument wins
+                        targs: vec![TArg { ty: Ty::Int, name: "p".into(), default: None }, TArg { ty: Ty::Int, name: "q".into(), default: None }],
+                        parents: vec![],
+                        body: inner,
+                    },
                     Ctor::MulticlassNoT => Item::Multiclass { doc: vec![], name: format!("N{depth}"), targs: vec![], parents: vec![], body: inner },
                     Ctor::ForeachSingle => unreachable!(),
                 });
@@ -259,7 +274,8 @@ fn prelude() -> Vec<Item> {
 /// layout 0: one file; 1: the prelude lives in an included file; 2 / 3: as 0 / 1 with a forward declaration of the class.
 pub fn scope_program(path: &[Ctor], wrapper: usize, layout: usize) -> Program {
     let mut g = Gen { next: 0, wrapper, probes: 0 };
-    let mut items = Vec::new();
+    // a global variable named like a template argument of the leaf class and of the multiclass
+    let mut items = vec![Item::Defvar { name: "q".into(), value: int(8) }];
     g.level(path, 0, false, &mut items);
     // field access through a def and through a class value; global values after their declaration
     items.push(Item::Defvar { name: g.fresh(), value: E::Field(Box::new(id("x")), "f".into()) });
